@@ -176,24 +176,33 @@ theorem decided_means_body_not_evaluated (pre : List Pred) (hasReturn : Bool) (d
 
 /-- ResourceFunction: the same for preconditions (no locals, no apiConfig, no template, no
     postconditions, no return) … -/
-theorem rf_decided_means_body_not_evaluated (pre post : List Pred) (crud : Crud) (d : Decision)
-    (h : decide pre = some d) :
-    rfRun pre post crud = ⟨.decided d, [.preconditions]⟩ := by
+theorem rf_decided_means_body_not_evaluated (pre post : List Pred) (lk : Lookup) (crud : Crud)
+    (d : Decision) (h : decide pre = some d) :
+    rfRun pre post lk crud = ⟨.decided d, [.preconditions]⟩ := by
   simp [rfRun, h]
 
-/-- … and in particular the cluster is not touched -/
-theorem precondition_decided_means_no_api (pre post : List Pred) (crud : Crud) (d : Decision)
-    (h : decide pre = some d) :
-    Ev.api ∉ (rfRun pre post crud).trace := by
-  rw [rf_decided_means_body_not_evaluated pre post crud d h]
+/-- … and in particular the cluster is not touched — not even by the kind-to-plural discovery
+    of a Function without `apiConfig.plural`, and whether or not the cluster knows the kind -/
+theorem precondition_decided_means_no_api (pre post : List Pred) (lk : Lookup) (crud : Crud)
+    (d : Decision) (h : decide pre = some d) :
+    Ev.api ∉ (rfRun pre post lk crud).trace := by
+  rw [rf_decided_means_body_not_evaluated pre post lk crud d h]
   simp
 
 /-- postconditions sit between the Kubernetes part and `return`: when they decide, `return` is
     not evaluated and their answer is the Function's outcome -/
-theorem postcondition_decided_means_return_not_evaluated (pre post : List Pred) (crud : Crud)
-    (d : Decision) (hpre : decide pre = none) (hok : crud.isOk = true) (h : decide post = some d) :
-    (rfRun pre post crud).out = .decided d ∧ Ev.returnValue ∉ (rfRun pre post crud).trace := by
-  cases crud <;> simp_all [rfRun, Crud.trace, Crud.isOk]
+theorem postcondition_decided_means_return_not_evaluated (pre post : List Pred) (lk : Lookup) (crud : Crud)
+    (d : Decision) (hpre : decide pre = none) (hlk : lk ≠ .unknownKind) (hok : crud.isOk = true)
+    (h : decide post = some d) :
+    (rfRun pre post lk crud).out = .decided d ∧ Ev.returnValue ∉ (rfRun pre post lk crud).trace := by
+  cases crud <;> cases lk <;> simp_all [rfRun, Crud.trace, Crud.isOk, Lookup.trace]
+
+/-- conversely the discovery does happen once the preconditions continue (the theorem above is not
+    vacuous), and a failing discovery is an outcome of the body, never of the preconditions -/
+theorem continue_means_discovery_happens (pre post : List Pred) (crud : Crud) (h : decide pre = none) :
+    rfRun pre post .unknownKind crud =
+      ⟨.body "lookupFailed", [.preconditions, .locals, .apiConfig, .api]⟩ := by
+  simp [rfRun, h, Lookup.trace]
 
 /-- conversely, "continue" does let the body run (so the two theorems above are not vacuous) -/
 theorem continue_means_body_evaluated (pre : List Pred) (h : decide pre = none) :
@@ -219,7 +228,8 @@ example : decide [f .ok "", f .permFail "p"] = none := by decide
 /-- a non-boolean after a false assertion still gives PermFail -/
 example : decide [f .skip "s", ⟨.nonBool, .ok, .ok "", .ok 0⟩] = some (.evalFail .assertion) := by decide
 
-example : Ev.api ∉ (rfRun [f .skip "s"] [] .createRetry).trace := by decide
-example : Ev.api ∈ (rfRun [t .skip] [] .createRetry).trace := by decide
+example : Ev.api ∉ (rfRun [f .skip "s"] [] .found .createRetry).trace := by decide
+example : Ev.api ∈ (rfRun [t .skip] [] .notNeeded .createRetry).trace := by decide
+example : (rfRun [f .skip "s"] [] .unknownKind .okMatch).out = .decided (.skip "s") := by decide
 
 end Koreo.C13
